@@ -66,7 +66,7 @@ Proof.
   destruct skip; [apply IH|].
   destruct (fm_get k (idx d)) as [m|]; [|apply IH].
   destruct (expired m now d).
-  - destruct (IH true (del_meta k d)) as [A B]. split; [rewrite A|rewrite B]; reflexivity.
+  - destruct (IH false (del_meta k d)) as [A B]. split; [rewrite A|rewrite B]; reflexivity.
   - destruct (meta_modified m).
     + destruct (ss_set_heaps m d) as [A B]. destruct (ss_set m d) as [failed d1]. cbn [snd] in A, B.
       destruct failed.
